@@ -227,7 +227,12 @@ fn gen_failing(rng: &mut Rng, uid: i64) -> (&'static str, String) {
     let len = 2 + rng.below(4);
     let pos = rng.below(len);
     let list = |bad: &str, good: &dyn Fn(usize) -> String| (0..len).map(|i| if i == pos { bad.to_string() } else { good(i) }).collect::<Vec<_>>().join(", ");
-    match rng.below(9) {
+    match rng.below(12) {
+        // resource limits (the C API runs with the default limits): the statement has buffered
+        // writes when a later clause exceeds the collection-size limit
+        9 => ("limit:collection-size-after-create", format!("CREATE (:F {{uid: {uid}}}) WITH 1 AS one UNWIND range(1, 3000000) AS x RETURN count(x) AS c")),
+        10 => ("limit:collection-size-after-set", "MATCH (n:Q) SET n.touched = 1 WITH n UNWIND range(1, 3000000) AS x RETURN count(x) AS c".to_string()),
+        11 => ("limit:collection-size-after-merge-and-label", format!("MERGE (g:F {{uid: {uid}}}) SET g:Marked WITH g UNWIND range(1, 3000000) AS x RETURN count(x) AS c")),
         0 => ("runtime:list-index-type:create", format!("UNWIND [{}] AS x CREATE (:F {{uid: {uid} + size(toString(x)), v: [1, 2, 3][x]}})", list("'a'", &|i| (i % 3).to_string()))),
         1 => ("runtime:toBoolean:create", format!("UNWIND [{}] AS x CREATE (:F {{uid: {uid}, v: toBoolean(x)}})", list("1.5", &|_| "true".to_string()))),
         2 => ("runtime:toBoolean:set", format!("UNWIND [{}] AS x MATCH (n:Q) SET n.touched = toBoolean(x)", list("2.5", &|_| "'true'".to_string()))),
